@@ -75,6 +75,13 @@ class Gen:
                 return self.val(d['t'], depth)
             if d['k'] == 'struct':
                 c = t['n'] if not _seq(d['subs']) else rng.choice(_seq(d['subs']))['sub']
+                if self.lossy_ts and not _seq(d['subs']) and rng.random() < 0.3:
+                    # an instance of an extending struct where the parent is declared (the runtime accepts it): the
+                    # encoding is that of the DECLARED struct, so the round trip loses the extra fields
+                    ext = [n for n, x in sc.items() if x['k'] == 'struct' and n != t['n'] and t['n'] in chain(sc, n)
+                           and not any(_seq(sc[a]['subs']) for a in chain(sc, n))]
+                    if ext:
+                        c = rng.choice(sorted(ext))
                 f = []
                 for cc in chain(sc, c):
                     for fd in _seq(sc[cc]['fields']):
